@@ -31,7 +31,8 @@ def run_c02_reuse(ctx, binary=None):
     T = ctx.thorough()
     vlib.tlc_mc(ctx, "ReuseConn", "ReuseConn_design.cfg", workers=8 if T else 4, timeout=1500,
                 label="reuse: NoLoss with replies racing kills (2 calls, <= 2 killed connections)")
-    _nv(ctx, (("ReuseConn", "ReuseConn_nv_select.cfg", "NoLoss"), ("ReuseConn", "ReuseConn_nv_strict.cfg", "NoLossStrict")))
+    _nv(ctx, (("ReuseConn", "ReuseConn_nv_select.cfg", "NoLoss"), ("ReuseConn", "ReuseConn_nv_strict.cfg", "NoLossStrict"),
+              ("ReuseConn", "ReuseConn_nv_ctx_clear.cfg", "NoSpuriousUnexpected")))
     ctx.assumptions += [
         "reuse NoLoss exempts a call whose connection was taken from the idle pool by another call before the reply was "
         "handed over (readLoop calls setIdle before the hand-over on purpose; TLC shows that the other call can then "
@@ -40,7 +41,8 @@ def run_c02_reuse(ctx, binary=None):
         "the reply-then-close race is decided by Go's select: each script is repeated N = 24 (quick) / 200 (thorough) "
         "times, miss probability 2^-N for the pinned code",
     ]
-    scripts = pl.expand_repeat([s for s in pl.reuse_scenarios(T) if s["name"].startswith("reply-then-close")])
+    scripts = pl.expand_repeat([s for s in pl.reuse_scenarios(T) if s["name"].startswith("reply-then-close")] +
+                               [pl.reuse_cancel_scenarios(T)["early-reply-reuse-then-cancel"]])
     recs, rej = pl.run_scripts(ctx, "reuse", scripts, binary, label="reuse C02")
     pl.dead_driver(ctx, recs, scripts, "reuse C02", min_frac=0.8)
     return recs
@@ -63,7 +65,7 @@ def run_c01_reuse(ctx, binary=None):
     n = 600 if T else 120
     beh = [b for b in pl.gen_behaviours(ctx, "reuse", "ReuseConn_gen_c08.cfg", n, 150)
            if sum(1 for s in b["steps"] if s["a"] == "ReadRet" and s.get("k") == "reply") >= 2]
-    scripts = [pl.beh_to_script("reuse", b, "tlc-%d" % i) for i, b in enumerate(beh)]
+    scripts = []
     # surplus on an idle connection: closed, the next call uses a fresh one
     scripts.append({"name": "surplus-on-idle", "origin": "scenario",
                     "steps": _fresh(1, 1) + [{"a": "Surplus", "x": 1}, {"a": "CloseReq", "x": 1}] + _fresh(2, 2)})
@@ -76,6 +78,10 @@ def run_c01_reuse(ctx, binary=None):
     for c in (3, 2, 1):
         st += [{"a": "ReadRet", "x": c, "k": "reply", "c": c}, {"a": "Return", "c": c}]
     scripts.append({"name": "three-conns-reverse-replies", "origin": "scenario", "steps": st})
+    # a cancelled query's late reply must not be taken for the reply of the next query on the reused connection
+    scripts += pl.expand_repeat([dict(pl.reuse_cancel_scenarios(T)["late-reply-then-reuse"], repeat=3),
+                                 pl.reuse_cancel_scenarios(T)["cancel-then-next-before-late-reply"]])
+    scripts += [pl.beh_to_script("reuse", b, "tlc-%d" % i) for i, b in enumerate(beh)]
     recs, rej = pl.run_scripts(ctx, "reuse", scripts, binary, label="reuse C01")
     if not ctx.violations:
         def wrong_owner(t):
@@ -98,7 +104,8 @@ def run_c09_reuse(ctx, binary=None):
                 label="lazy conn: QueueBound, CapBound, NoSpuriousRefusal, NoLeak (3 calls)")
     if T:
         vlib.tlc_mc(ctx, "LazyPipeline", "LazyPipeline_cap1.cfg", workers=8, timeout=1500, label="lazy conn: capacity 1 < queue limit 2")
-    _nv(ctx, (("ReuseConn", "ReuseConn_nv_oneatatime.cfg", "OneAtATime"), ("ReuseConn", "ReuseConn_nv_idlesound.cfg", "IdleSound"),
+    _nv(ctx, (("ReuseConn", "ReuseConn_nv_oneatatime.cfg", "OneAtATime"), ("ReuseConn", "ReuseConn_nv_ctx_idle.cfg", "OneAtATime"),
+              ("ReuseConn", "ReuseConn_nv_idlesound.cfg", "IdleSound"),
               ("LazyPipeline", "LazyPipeline_nv_wg.cfg", "NoSpuriousRefusal"), ("LazyPipeline", "LazyPipeline_nv_queue.cfg", "QueueBound"),
               ("LazyPipeline", "LazyPipeline_nv_cap.cfg", "CapBound"), ("LazyPipeline", "LazyPipeline_nv_leak.cfg", "NoLeak")))
     n = 600 if T else 120
@@ -108,6 +115,9 @@ def run_c09_reuse(ctx, binary=None):
     # five concurrent callers on a pool of two idle connections
     st = pl._idle_conns(2) + [{"a": "Start", "c": c} for c in (3, 4, 5)]
     rscripts.append({"name": "five-callers-two-idle", "origin": "scenario", "steps": st})
+    # a cancelled, still unanswered query keeps its connection out of the pool (limit 1 per connection)
+    rscripts += pl.expand_repeat([dict(pl.reuse_cancel_scenarios(T)["cancel-then-next-before-late-reply"], repeat=3),
+                                  pl.reuse_cancel_scenarios(T)["late-reply-then-reuse"]])
     pbeh = pl.gen_behaviours(ctx, "pipeline", "LazyPipeline_gen_eager.cfg", n, 120)
     pscripts = [pl.beh_to_script("pipeline", b, "tlc-%d" % i) for i, b in enumerate(pbeh)]
     pbeh1 = pl.gen_behaviours(ctx, "pipeline", "LazyPipeline_gen_cap1.cfg", n // 2, 120,
